@@ -173,6 +173,9 @@ func Merge(segs []*XSeg, drops []*roaring.Bitmap) (*XSeg, [][]uint64) {
 	return out, nums
 }
 
+// Index builds the inverted index eagerly (call before sharing a model between goroutines).
+func (x *XSeg) Index() { x.index() }
+
 func (x *XSeg) index() {
 	if x.inv != nil {
 		return
